@@ -14,7 +14,8 @@ CONSTANTS
   BitWidth = 8
   AllowEmpty = FALSE
   AlwaysRow = FALSE
-  Plans = {202}
+  Plan1 = 202
+  Plan2 = 0
   SampleDB = 0
   SampleMS = 0
   SampleSeries = 3
